@@ -17,8 +17,6 @@
 package frame
 
 import (
-	"io"
-
 	"github.com/go-netty/go-netty"
 	"github.com/go-netty/go-netty/codec"
 	"github.com/go-netty/go-netty/utils"
@@ -39,7 +37,7 @@ func (*fixedLengthCodec) CodecName() string {
 }
 
 func (f *fixedLengthCodec) HandleRead(ctx netty.InboundContext, message netty.Message) {
-	ctx.HandleRead(io.LimitReader(utils.MustToReader(message), int64(f.length)))
+	ctx.HandleRead(utils.ExactReader(utils.MustToReader(message), int64(f.length)))
 }
 
 func (f *fixedLengthCodec) HandleWrite(ctx netty.OutboundContext, message netty.Message) {
